@@ -205,4 +205,69 @@ def gen_node(rng, rep, cfg):
         return {'op': 'node', 'kind': kind, 'n': rng.choice(nodes), 'attrs': attrs}
     if kind == 'graph_attr':
         return {'op': 'node', 'kind': kind, 'attrs': rng.choice([{'name': 'g'}, {'k': [1]}, {'d': {'x': 1}}])}
+    if kind != 'set_node_attributes':
+        attrs = rng.choice([a for a in ATTR_POOL if not any(isinstance(v, (list, dict)) for v in a.values())])
     return {'op': 'node', 'kind': kind, 'ns': rng.sample(nodes, rng.randint(1, len(nodes))), 'attrs': attrs}
+
+
+# ------------------------------------------------------------------ derivations
+def gen_window(rng, m, cfg):
+    """window chosen by class relative to the runs"""
+    ids = m.instants()
+    o = cfg['origin']
+    if not ids:
+        a = o + rng.randint(0, 5)
+        return a, a + rng.randint(0, 3)
+    runs = [r for k in m.keys() for r in m.runs(k)]
+    s, e = rng.choice(runs)
+    cls = rng.choice(['inside', 'head', 'tail', 'exact', 'touch-end', 'after-end', 'all', 'none', 'point',
+                      'random'])
+    if cls == 'inside':
+        a = rng.randint(s, e); b = rng.randint(a, e)
+    elif cls == 'head':
+        a = s - rng.randint(1, 3); b = rng.randint(s, e)
+    elif cls == 'tail':
+        a = rng.randint(s, e); b = e + rng.randint(1, 3)
+    elif cls == 'exact':
+        a, b = s, e
+    elif cls == 'touch-end':
+        a, b = e, e + rng.randint(0, 2)
+    elif cls == 'after-end':
+        a, b = e + 1, e + 1 + rng.randint(0, 2)
+    elif cls == 'all':
+        a, b = ids[0] - rng.randint(0, 2), ids[-1] + rng.randint(0, 2)
+    elif cls == 'none':
+        a = ids[-1] + 2 + rng.randint(0, 2); b = a + rng.randint(0, 2)
+    elif cls == 'point':
+        a = b = rng.randint(ids[0] - 1, ids[-1] + 1)
+    else:
+        a = rng.randint(ids[0] - 2, ids[-1] + 2); b = a + rng.randint(0, 6)
+    return a, b
+
+
+def gen_slice(rng, rep, cfg):
+    a, b = gen_window(rng, rep.m, cfg)
+    x = rng.random()
+    if x < 0.08:
+        return {'op': 'slice', 't_from': b + 1 + rng.randint(0, 2), 't_to': b, 'form': rng.choice(['method', 'func'])}
+    if x < 0.25:
+        a2, b2 = gen_window(rng, rep.m, cfg)
+        return {'op': 'slice2', 'w1': [a, b], 'w2': [a2, b2]}
+    if a == b and rng.random() < 0.5:
+        return {'op': 'slice', 't_from': a, 't_to': None, 'form': rng.choice(['method', 'func']),
+                'pass_none': rng.random() < 0.3}
+    return {'op': 'slice', 't_from': a, 't_to': b, 'form': rng.choice(['method', 'func'])}
+
+
+def gen_convert(rng, rep, cfg):
+    if rep.m.directed:
+        return {'op': 'convert', 'to': 'undirected', 'reciprocal': rng.random() < 0.4,
+                'default_arg': rng.random() < 0.3}
+    return {'op': 'convert', 'to': 'directed'}
+
+
+def gen_mutate_attr(rng, rep, cfg):
+    if rng.random() < 0.3:
+        return {'op': 'mutate_attr', 'kind': 'graph_nested', 'val': rng.randint(0, 99)}
+    ns = list(rep.m.nodes) or cfg['nodes']
+    return {'op': 'mutate_attr', 'kind': 'node_nested', 'n': rng.choice(ns), 'val': rng.randint(0, 99)}
